@@ -38,6 +38,7 @@ import (
 	"google.golang.org/grpc/status"
 
 	"verif/harness/hx"
+	"verif/harness/rt"
 )
 
 // ---- raw codec -------------------------------------------------------------------------------------------
@@ -346,10 +347,13 @@ func (r *rig) urlOf(i int) string {
 type CallStep struct {
 	Op     string      `json:"op"` // call | table
 	Routes []RouteSpec `json:"routes,omitempty"`
-	Method string      `json:"method,omitempty"`
-	MD     [][]string  `json:"md,omitempty"`
-	Msgs   []string    `json:"msgs,omitempty"` // hex
-	Script *Script     `json:"script,omitempty"`
+	// Defs is a table given as a script of route commands (add / del / weight) whose targets are the
+	// placeholders grpc://b0, grpc://b1, … (replaced by the backends' addresses when the table is built)
+	Defs   []rt.Def   `json:"defs,omitempty"`
+	Method string     `json:"method,omitempty"`
+	MD     [][]string `json:"md,omitempty"`
+	Msgs   []string   `json:"msgs,omitempty"` // hex
+	Script *Script    `json:"script,omitempty"`
 }
 
 type CallCase struct {
@@ -370,7 +374,13 @@ type oracleHost struct {
 }
 
 type callObs struct {
-	Op      string       `json:"op"`
+	Op string `json:"op"`
+	// table steps: did NewTable fail, the resulting table as route.VerifDump shows it (target URLs mapped
+	// back to the placeholders), and the oracle values of the table model's parameters (url.Parse, glob.Compile)
+	Error bool                   `json:"error,omitempty"`
+	Dump  []route.VerifHost      `json:"dump,omitempty"`
+	Env   map[string]interface{} `json:"env,omitempty"`
+
 	Caller  *callerSaw   `json:"caller,omitempty"`
 	Backend *backendRec  `json:"backend,omitempty"`
 	Hits    []int64      `json:"hits,omitempty"`
@@ -557,6 +567,77 @@ func (r *rig) doCall(st *CallStep, connIDs map[string]int) (*callObs, error) {
 	return o, nil
 }
 
+// placeholder of backend i in generated scripts
+func placeholder(i int) string { return fmt.Sprintf("grpc://b%d", i) }
+
+// defsOf turns the simple route specs into `route add` commands (the Lean driver does the same).
+func defsOf(specs []RouteSpec) []rt.Def {
+	var ds []rt.Def
+	n := 0
+	for _, s := range specs {
+		for _, u := range s.URLs {
+			ds = append(ds, rt.Def{Cmd: "add", Service: fmt.Sprintf("svc%d", n), Src: s.Host + s.Path, Dst: placeholder(u),
+				Opts: [][]string{{"proto", "grpc"}}})
+			n++
+		}
+	}
+	return ds
+}
+
+// setTable builds the table of a step through the repo's own parser and command interpreter (NewTable) and
+// makes it the active one; on an error the active table stays.
+func (r *rig) setTable(st *CallStep) (*callObs, error) {
+	defs := st.Defs
+	if len(defs) == 0 {
+		defs = defsOf(st.Routes)
+	}
+	if len(defs) > 64 {
+		return nil, fmt.Errorf("script too long")
+	}
+	for i := range defs {
+		defs[i].Fill()
+		if strings.ContainsAny(defs[i].Service+defs[i].Src+defs[i].Dst+defs[i].WText+defs[i].Cmd, "\n\r\"") {
+			return nil, fmt.Errorf("bad character in route command")
+		}
+	}
+	o := &callObs{Op: "table", Env: rt.Oracle(defs)}
+	real := make([]rt.Def, len(defs))
+	for i, d := range defs {
+		real[i] = d
+		for b, u := range r.urls {
+			if d.Dst == placeholder(b) {
+				real[i].Dst = u
+			}
+		}
+	}
+	var t route.Table
+	var err error
+	if len(real) == 0 {
+		t = make(route.Table)
+	} else {
+		t, err = route.VerifNewTable(rt.Text(real))
+	}
+	if err != nil || t == nil {
+		o.Error = true
+		return o, nil
+	}
+	route.SetTable(t)
+	o.Dump = route.VerifDump(t, false)
+	for hi := range o.Dump {
+		for ri := range o.Dump[hi].Routes {
+			tg := o.Dump[hi].Routes[ri].Targets
+			for ti := range tg {
+				for b, u := range r.urls {
+					if tg[ti].URL == u {
+						tg[ti].URL = placeholder(b)
+					}
+				}
+			}
+		}
+	}
+	return o, nil
+}
+
 func runCall(raw json.RawMessage) (interface{}, error) {
 	var c CallCase
 	if err := decode(raw, &c); err != nil {
@@ -575,12 +656,11 @@ func runCall(raw json.RawMessage) (interface{}, error) {
 		st := &c.Steps[i]
 		switch st.Op {
 		case "table":
-			t, err := buildTable(st.Routes, r.urlOf)
+			o, err := r.setTable(st)
 			if err != nil {
 				return nil, err
 			}
-			route.SetTable(t)
-			out = append(out, &callObs{Op: "table"})
+			out = append(out, o)
 		case "call":
 			if !strings.HasPrefix(st.Method, "/") || strings.Count(st.Method, "/") < 2 {
 				return nil, fmt.Errorf("method must look like /service/method")
@@ -704,15 +784,110 @@ func genCallRoutes(r *hx.Rand) []RouteSpec {
 	return rs
 }
 
+// callUniverse: the vocabulary of generated route scripts (hosts in several spellings and a pattern, nested
+// path prefixes, shared tags so that `route del … tags` and `route weight` hit several targets).
+var callUniverse = rt.Universe{
+	Services: []string{"svc-a", "svc-b", "svc-c"},
+	Hosts:    []string{"", "", "", "beta.example", "BETA.example", "a.example", "*.example"},
+	Paths:    callPaths,
+	Dsts:     []string{"grpc://b0", "grpc://b1", "grpc://b2"},
+	Tags:     []string{"a", "b", "c"},
+	Weights:  []string{"", "", "0", "0.25", "0.5", "0.5", "1", "2", "0.3333"},
+	Opts:     [][]string{{"proto", "grpc"}, {"flag", ""}},
+}
+
+// genCallTable: a third of the tables are plain `route add` lists, the others are scripts with del and
+// weight commands; some of those end with a `route del` aimed at the tags or the service of an added route,
+// so that routes lose all their targets.
+func genCallTable(r *hx.Rand) (CallStep, string) {
+	if r.Chance(1, 3) {
+		return CallStep{Op: "table", Routes: genCallRoutes(r)}, ""
+	}
+	aim := "" // source (host/path) of the route a directed `route del` was aimed at
+	ds := callUniverse.GenScript(r, r.Range(2, 9))
+	if r.Chance(1, 2) {
+		var adds []rt.Def
+		for _, d := range ds {
+			if d.Cmd == "add" {
+				adds = append(adds, d)
+			}
+		}
+		if len(adds) > 0 {
+			h := adds[r.Intn(len(adds))]
+			d := rt.Def{Cmd: "del", Service: h.Service}
+			switch {
+			case len(h.Tags) > 0 && r.Chance(2, 3):
+				d.Tags = []string{h.Tags[r.Intn(len(h.Tags))]}
+				if r.Chance(1, 2) {
+					d.Service = ""
+				}
+			case r.Chance(1, 2):
+				d.Src = h.Src
+			}
+			if r.Chance(1, 2) {
+				// a general route of another service on the same host: it must take over when the specific
+				// route loses its targets
+				host := h.Src
+				if i := strings.Index(host, "/"); i >= 0 {
+					host = host[:i]
+				}
+				ds = append(ds, rt.Def{Cmd: "add", Service: "svc-g", Src: host + "/", Dst: r.Pick(callUniverse.Dsts)})
+			}
+			ds = append(ds, d)
+			aim = h.Src
+		}
+	}
+	for i := range ds {
+		ds[i].Fill()
+	}
+	return CallStep{Op: "table", Defs: ds}, aim
+}
+
+// aimCall points a call at the route with source src: a method under its path, its host as dsthost.
+func aimCall(st *CallStep, src string) {
+	host, path := src, "/"
+	if i := strings.Index(src, "/"); i >= 0 {
+		host, path = src[:i], src[i:]
+	}
+	switch {
+	case path == "/":
+		path = "/svc.A/M"
+	case strings.HasSuffix(path, "/"):
+		path += "M"
+	case strings.Count(path, "/") < 2:
+		path += "/M"
+	}
+	st.Method = path
+	var md [][]string
+	for _, kv := range st.MD {
+		if kv[0] != "dsthost" {
+			md = append(md, kv)
+		}
+	}
+	if strings.HasPrefix(host, "*") {
+		host = "x" + host[1:]
+	}
+	if host != "" {
+		md = append(md, []string{"dsthost", host})
+	}
+	st.MD = md
+}
+
 func genCall(r *hx.Rand, i int) interface{} {
 	c := CallCase{}
-	c.Steps = append(c.Steps, CallStep{Op: "table", Routes: genCallRoutes(r)})
+	tb, aim := genCallTable(r)
+	c.Steps = append(c.Steps, tb)
 	n := r.Range(1, 5)
 	for j := 0; j < n; j++ {
 		if r.Chance(1, 5) {
-			c.Steps = append(c.Steps, CallStep{Op: "table", Routes: genCallRoutes(r)})
+			tb, aim = genCallTable(r)
+			c.Steps = append(c.Steps, tb)
 		}
 		st := genCallStep(r)
+		if aim != "" && r.Chance(2, 3) {
+			aimCall(&st, aim)
+			aim = ""
+		}
 		if j > 0 && r.Chance(1, 3) {
 			// the same call again: reuse of the pooled connection
 			prev := c.Steps[len(c.Steps)-1]
